@@ -3,6 +3,7 @@ package props
 import (
 	"encoding/json"
 	"fmt"
+	yaml3 "gopkg.in/yaml.v3"
 	"math/rand"
 	"os"
 	"sort"
@@ -227,12 +228,12 @@ func (f FForm) dnfSize(neg bool) int {
 	return 1
 }
 
-func fAtom(a FAtom) FForm             { return FForm{Kind: "atom", Atom: &a} }
-func fNot(f FForm) FForm               { return FForm{Kind: "not", Kids: []FForm{f}} }
-func fAnd(l ...FForm) FForm            { return FForm{Kind: "and", Kids: l} }
-func fOr(l ...FForm) FForm             { return FForm{Kind: "or", Kids: l} }
-func fIf(i, t FForm) FForm             { return FForm{Kind: "if", Kids: []FForm{i, t}} }
-func fIfElse(i, t, e FForm) FForm      { return FForm{Kind: "if", Kids: []FForm{i, t, e}, HasElse: true} }
+func fAtom(a FAtom) FForm         { return FForm{Kind: "atom", Atom: &a} }
+func fNot(f FForm) FForm          { return FForm{Kind: "not", Kids: []FForm{f}} }
+func fAnd(l ...FForm) FForm       { return FForm{Kind: "and", Kids: l} }
+func fOr(l ...FForm) FForm        { return FForm{Kind: "or", Kids: l} }
+func fIf(i, t FForm) FForm        { return FForm{Kind: "if", Kids: []FForm{i, t}} }
+func fIfElse(i, t, e FForm) FForm { return FForm{Kind: "if", Kids: []FForm{i, t, e}, HasElse: true} }
 func fNested(q string, k int, p PExp, f FForm) FForm {
 	return FForm{Kind: "nested", Q: q, K: k, Path: p, Kids: []FForm{f}}
 }
@@ -375,6 +376,26 @@ func runC01Batch(e *core.Env, g Graph, cases []c01case, tag string) {
 		return
 	}
 	byName := rep.FocusByName()
+	// the same profile TEXT through the Coq model of the parser (YAML tree -> ProfileParser -> failure DNF -> evaluation):
+	// one more route to the verdict, which must agree with the library on every (validation, node)
+	var ydoc yaml3.Node
+	if yaml3.Unmarshal([]byte(profile), &ydoc) == nil && len(ydoc.Content) > 0 {
+		if y, ok := yamlSx(ydoc.Content[0]); ok {
+			ans, derr := e.Driver.Eval(sx.L(sx.A("c15"), sx.A("verdict"), sx.L(amfDefaultsSx()...), y, g.Sx()))
+			if derr == nil && ans.IsL && len(ans.List) == 2 && ans.List[0].Atom == "ok" {
+				res.Count("batches-also-through-the-parser-model")
+				mv := modelItems(ans)
+				iv, _ := implItems(out)
+				if diff := verdictDiff(mv, iv); diff != "" {
+					res.Violate("model-mismatch", "the verdict the Coq model computes from the profile TEXT (parser model) differs from the library's: "+diff,
+						map[string]any{"no_failing_input_found": true, "broken": "correspondence ProfileParser.verdict vs pkg.Validate (C01 batch " + tag + ")", "profile": profile, "data": data,
+							"model": core.Trunc(itemsText(mv), 3000), "impl": core.Trunc(itemsText(iv), 3000)})
+				}
+			} else if derr == nil {
+				res.Count("parser-model-answer=" + ans.Atom)
+			}
+		}
+	}
 	typed := map[string]bool{}
 	for _, n := range g.Nodes {
 		for _, t := range n.Types {
